@@ -124,6 +124,14 @@ def get_method_annotation(key: str, field: InstanceMethodField) -> str:
         items.append("**%s" % varkw)
 
     items[0] = "self"
+    posonly = [
+        param
+        for param in inspect.signature(field.method).parameters.values()
+        if param.kind is param.POSITIONAL_ONLY
+    ]
+    if posonly:
+        items.insert(len(posonly), "/")
+
     annotation = "def %s(%s)" % (key, ", ".join(items))
     if has_ret_annotation:
         retval = get_retval_annotation(annotations["return"])
